@@ -128,4 +128,166 @@ def diagKernelSem (s : DiagSig) (conj : K → K) (n : Nat) (d : Nat → K) (alph
 
 end
 
+/-! ### elementwise vector loops (densevector.hh)
+
+`for (i = 0; i < size(); ++i) t[i] (op) rhs;` with `t` = `(*this)` or a copy `result` of it, and
+`rhs` one of `x[i]`, `k`, `a*x[i]`, `-asImp()[i]`. -/
+
+/-- assignment operator of an elementwise statement: `=`, `+=`, `-=`, `*=`, `/=` -/
+inductive EOp where
+  | set | add | sub | mul | div
+  deriving DecidableEq, Repr
+
+/-- right-hand side of an elementwise statement -/
+inductive ERhs where
+  /-- `x[i]` -/
+  | x
+  /-- the scalar argument -/
+  | k
+  /-- `k*x[i]` -/
+  | kx
+  /-- `-asImp()[i]`: the negated entry of the (unmodified) object itself -/
+  | negSelf
+  deriving DecidableEq, Repr
+
+structure ElemSig where
+  op : EOp
+  rhs : ERhs
+  deriving DecidableEq, Repr
+
+/-- what `operator+` / `operator-` of two vectors do: copy `*this`, apply the named compound assignment -/
+inductive ViaAssign where
+  | plusAssign | minusAssign
+  deriving DecidableEq, Repr
+
+/-- which argument of the scalar `dot(a,b)` is conjugated (dotproduct.hh) -/
+inductive ConjArg where
+  | first | second | none
+  deriving DecidableEq, Repr
+
+/-- order of the arguments in the summand of a reduction: `(*this)[i] (.) x[i]` or `x[i] (.) (*this)[i]` -/
+inductive ArgOrder where
+  | selfX | xSelf
+  deriving DecidableEq, Repr
+
+section
+variable {K : Type _} [Zero K] [Add K] [Sub K] [Mul K] [Neg K] [Div K]
+
+def applyE (o : EOp) (old v : K) : K :=
+  match o with
+  | .set => v
+  | .add => old + v
+  | .sub => old - v
+  | .mul => old * v
+  | .div => old / v
+
+def erhs (r : ERhs) (selfi k xi : K) : K :=
+  match r with
+  | .x => xi
+  | .k => k
+  | .kx => k * xi
+  | .negSelf => - selfi
+
+/-- the elementwise loop described by an `ElemSig`, run in place on `t`; `self` is the object read through
+`asImp()` (only used by `negSelf`), `k` the scalar argument, `x` the vector argument -/
+def elemSem (s : ElemSig) (n : Nat) (self : Nat → K) (k : K) (x : Nat → K) (t : Vec K) : Vec K :=
+  forN n (fun i t => t.upd i (applyE s.op (t.get i) (erhs s.rhs (self i) k (x i)))) t
+
+end
+
+/-! ### three-deep product loop nests (fmatrix.hh, densematrix.hh)
+
+```
+for (i = 0; i < extI; ++i)
+  for (j = 0; j < extJ; ++j) {
+    [ T[tr][tc] = 0; ]
+    for (k = 0; k < extK; ++k)
+      T[tr][tc] += F1 * F2;          -- F = one of the two input matrices, indexed by two of the loop variables
+  }
+``` -/
+
+inductive PIdx where
+  | i | j | k
+  deriving DecidableEq, Repr
+
+/-- which of the two input matrices of the product a factor reads -/
+inductive POpd where
+  | fst | snd
+  deriving DecidableEq, Repr
+
+/-- loop extent: rows / columns of the first / second input matrix -/
+inductive PExt where
+  | fstRows | fstCols | sndRows | sndCols
+  deriving DecidableEq, Repr
+
+structure PFac where
+  opd : POpd
+  r : PIdx
+  c : PIdx
+  deriving DecidableEq, Repr
+
+structure ProdSig where
+  extI : PExt
+  extJ : PExt
+  extK : PExt
+  tr : PIdx
+  tc : PIdx
+  init : Bool
+  f1 : PFac
+  f2 : PFac
+  deriving DecidableEq, Repr
+
+/-- in-place store `M[a][b] = v` -/
+def Mat.upd {K : Type _} (M : Mat K) (a b : Nat) (v : K) : Mat K :=
+  ⟨M.rows, M.cols, fun r c => if r = a ∧ c = b then v else M.e r c⟩
+
+def pidx (x : PIdx) (i j k : Nat) : Nat :=
+  match x with
+  | .i => i
+  | .j => j
+  | .k => k
+
+section
+variable {K : Type _} [Zero K] [Add K] [Mul K]
+
+def pext (x : PExt) (A B : Mat K) : Nat :=
+  match x with
+  | .fstRows => A.rows
+  | .fstCols => A.cols
+  | .sndRows => B.rows
+  | .sndCols => B.cols
+
+def pfac (f : PFac) (A B : Mat K) (i j k : Nat) : K :=
+  match f.opd with
+  | .fst => A.e (pidx f.r i j k) (pidx f.c i j k)
+  | .snd => B.e (pidx f.r i j k) (pidx f.c i j k)
+
+/-- the product loop nest described by a `ProdSig`, run in place on `T` with inputs `A` (first) and `B` (second) -/
+def prodSem (s : ProdSig) (A B : Mat K) (T : Mat K) : Mat K :=
+  forN (pext s.extI A B) (fun i T =>
+    forN (pext s.extJ A B) (fun j T =>
+      forN (pext s.extK A B) (fun k T =>
+        let a := pidx s.tr i j k
+        let b := pidx s.tc i j k
+        T.upd a b (T.e a b + pfac s.f1 A B i j k * pfac s.f2 A B i j k))
+        (if s.init then T.upd (pidx s.tr i j 0) (pidx s.tc i j 0) 0 else T)) T) T
+
+end
+
+/-! ### the transposition loop nest: `for o < extO: for n < extI: T[tr][tc] = (*this)[sr][sc]` -/
+
+structure TransSig where
+  extO : Dim
+  extI : Dim
+  tr : Ix
+  tc : Ix
+  sr : Ix
+  sc : Ix
+  deriving DecidableEq, Repr
+
+def transSem {K : Type _} (s : TransSig) (A : Mat K) (T : Mat K) : Mat K :=
+  forN (bound s.extO A.rows A.cols) (fun o T =>
+    forN (bound s.extI A.rows A.cols) (fun n T =>
+      T.upd (sel s.tr o n) (sel s.tc o n) (A.e (sel s.sr o n) (sel s.sc o n))) T) T
+
 end DV.C01
